@@ -7,6 +7,7 @@ import (
 	"fmt"
 	"math"
 	"os"
+	"strings"
 	"time"
 
 	"github.com/codenotary/immudb/embedded/document"
@@ -29,6 +30,13 @@ const (
 
 func one(f string, op protomodel.ComparisonOperator, v any) *Query {
 	return &Query{Groups: [][]Cmp{{{f, op, v}}}}
+}
+
+func okStr(ok bool, ids []string) string {
+	if !ok {
+		return "fails"
+	}
+	return "answers " + short(ids)
 }
 
 func witnesses() []histCfg {
@@ -91,6 +99,27 @@ func witnesses() []histCfg {
 				h.insertDocs([]map[string]any{{"n": 20.0, "s": "E"}})
 				h.insertDocs([]map[string]any{{"n": 20.0, "s": "F"}})
 				h.doSearch(one("n", opEQ, 20.0), 0, true)
+			},
+		},
+		{
+			// a string constant longer than the 512-byte column: the range bound cannot be encoded as an index
+			// key, the query fails exactly when an index on the field is used
+			name: "witness-long-constant-index",
+			coll: &Coll{Name: "c19", IDName: "_id", Fields: []Field{{"s", tStr, 1}}, nextGen: 1},
+			fixed: func(h *hist) {
+				long := strings.Repeat("x", 513)
+				h.insertDocs([]map[string]any{{"s": "a"}})
+				h.insertDocs([]map[string]any{{"s": "y"}})
+				ord := func(q *Query) *Query { q.Order = []Ord{{"s", false}}; return q }
+				for _, q := range []*Query{one("s", opEQ, long), ord(one("s", opGE, long)), ord(one("s", opLT, long))} {
+					a, ok1 := h.doSearch(q, 0, true)
+					h.createIndex([]string{"s"}, false)
+					b, ok2 := h.doSearch(q, 0, true)
+					if ok1 != ok2 || (ok1 && !samePageUpToTies(h.c, q, 0, a, b)) {
+						h.finding(lblLongC, fmt.Sprintf("query %s: %v without and %v with the index on (s)", queryString(q)[:14]+"...\"", okStr(ok1, a), okStr(ok2, b)))
+					}
+					h.deleteIndex([]string{"s"})
+				}
 			},
 		},
 		{
